@@ -116,14 +116,28 @@ def churn(r):
         "fn thrower(n) { if n == 0 { raise Error('boom ${[1, 2].len()}'); } let pad = 'p${n}'; thrower(n - 1); pad }",
         "let keep = [];",
         "let table = {};",
+        # a user defined str() that recurses deeply (the fiber's stack grows) and allocates, for natives that convert
+        # several arguments one after the other
+        "class Deep { init(n) { self.n = n; } str() { let pad = ['s${self.n}']; 'deep' + deep(self.n, pad).str() } }",
     ]
     body = []
     for i in range(r.randint(3, 10)):
         k = r.choice(['node', 'closure', 'map', 'tuple', 'error', 'deep', 'strings', 'box', 'cycle', 'method', 'sortcb',
-                      'slice', 'interp', 'nested_fn', 'enumerate'])
+                      'slice', 'interp', 'nested_fn', 'enumerate', 'userstr', 'userstr'])
         v = r.randint(0, 9)
         if k == 'node':
             body.append("keep.push(Node(%d).chain(%d).tag);" % (v, r.randint(0, 6)))
+        elif k == 'userstr':
+            depth = r.choice([5, 40, 120, 200])
+            form = r.choice(['print', 'interp', 'list', 'concat'])
+            if form == 'print':
+                body.append("print(Deep(%d), 'second${%d}', [1, '${%d}', 3], Deep(%d), 'last');" % (depth, v, v, depth // 2))
+            elif form == 'interp':
+                body.append("keep.push('a${Deep(%d)}b${[%d, 'x${%d}']}c${Deep(%d)}');" % (depth, v, v, depth))
+            elif form == 'list':
+                body.append("print([Deep(%d), ['in${%d}'], Deep(%d)], (Deep(%d), 'tuple${%d}'));" % (depth, v, depth // 3, depth, v))
+            else:
+                body.append("keep.push(Deep(%d).str() + 'tail${%d}');" % (depth, v))
         elif k == 'closure':
             body.append("if true { let f = mk(%d); f('a'); keep.push(f('b').len()); }" % v)
         elif k == 'map':
